@@ -239,3 +239,63 @@ Proof.
     destruct HO as [_ HO]. apply tpmem_false in HO. rewrite HO in NA. discriminate.
 Qed.
 End C01.
+
+(* ------------------------------------------------------------------ at the attempt limit the batch resolves *)
+Lemma eq_xo_attempts : forall s s', eq_xo s s' -> attempts s' = attempts s.
+Proof. unfold eq_xo; intros s s' H; rewrite H; reflexivity. Qed.
+
+Lemma check_retry_limit : forall c s pls fl s1 o1 done,
+  (c_max c <=? attempts s) = true -> check_retry c s pls fl = (s1, o1, done) -> done = true.
+Proof.
+  unfold check_retry; intros c s pls fl s1 o1 done L H. rewrite L in H. simpl in H.
+  destruct (deliver_failed s pls fl); inv H; auto.
+Qed.
+
+Lemma handle_result_limit : forall c s pls cur v s1 o1 done,
+  (c_max c <=? attempts s) = true -> handle_result c s pls cur v = (s1, o1, done) -> done = true.
+Proof.
+  unfold handle_result; intros c s pls cur v s1 o1 done L H. destruct v as [|rs|rs fs|k|k].
+  - destruct (deliver s (all_sends pls) _); inv H; auto.
+  - destruct (process_resps s pls rs) as [[s2 o2] f2] eqn:E. apply process_resps_xo in E as [X _].
+    apply eq_xo_attempts in X. destruct f2; [inv H; auto|].
+    destruct (check_retry c s2 pls _) as [[s3 o3] d3] eqn:E3. inv H.
+    eapply check_retry_limit; [|eauto]. rewrite X; auto.
+  - destruct (if c_acks c =? 0 then _ else _) as [s0 o0] eqn:E0.
+    assert (A0 : attempts s0 = attempts s).
+    { destruct (c_acks c =? 0); [apply deliver_xo in E0 as [X _]; apply eq_xo_attempts; auto|inv E0; auto]. }
+    destruct (process_resps s0 pls rs) as [[s2 o2] f2] eqn:E. apply process_resps_xo in E as [X _].
+    apply eq_xo_attempts in X.
+    destruct (check_retry c s2 pls _) as [[s3 o3] d3] eqn:E3. inv H.
+    eapply check_retry_limit; [|eauto]. rewrite X, A0; auto.
+  - eapply check_retry_limit; eauto.
+  - destruct (deliver s (all_sends pls) _); inv H; auto.
+Qed.
+
+Section C01limit.
+Variables (c : cfg) (has_t : bool) (api0 : Z) (cache0 : list (Z * (Z * bool))).
+Let s0 := init_state has_t api0 cache0.
+
+(* the produce attempts of the batch are used up (or the producer is stopping): whatever the client now answers,
+   every send of the batch that has not fired yet fires in this very step *)
+Lemma limit_resolves : forall evs s tr pls cur v s' o,
+  run c s0 evs = (s, tr) -> ph s = Sending pls cur -> c_max c <= attempts s -> result_ok c cur v = true ->
+  step c s (EResult v) = (s', o) ->
+  forall x, In x (all_sends pls) -> In (s_id x) (outstanding s) -> In (s_id x) (oids o).
+Proof.
+  intros evs s tr pls cur v s' o R P L RO ST x X O.
+  apply run_inv in R. pose proof (Inv_pre _ _ _ _ R) as PR.
+  pose proof (u_fires _ _ _ _ _ (step_ssum c s (EResult v) s' o PR ST)) as F.
+  assert (FS : fires s s' o).
+  { eapply fires_eq_out; [|exact F]. unfold plus, newid; simpl. apply app_nil_r. }
+  destruct (in_dec Z.eq_dec (s_id x) (oids o)) as [D|D]; auto. exfalso.
+  pose proof (fires_stay _ _ _ _ FS O D) as O'.
+  pose proof (i_wf _ _ _ _ R) as W. unfold phase_wf in W. rewrite P in W. destruct W as [W CL].
+  unfold step, core in ST. rewrite P, RO in ST.
+  destruct (handle_result c s pls cur v) as [[s2 o2] done] eqn:E. unfold fin_if in ST.
+  assert (DN : done = true) by (eapply handle_result_limit; [|exact E]; apply Z.leb_le; auto). subst done.
+  destruct (apply_epi c s2 Fin) as [s3 o3] eqn:E3. inv ST. simpl in E3.
+  destruct (handle_result_sum _ _ _ _ _ _ _ _ E RO W CL) as (_ & _ & _ & D2 & _).
+  apply finish_tsum in E3 as (sI & ot & _ & _ & _ & OI & _ & _ & T).
+  apply (fires_sub _ _ _ (t_fires _ _ _ T)) in O'. rewrite OI in O'. eapply D2; eauto.
+Qed.
+End C01limit.
